@@ -205,7 +205,7 @@ where
                             }
                         }
 
-                        param = param.chars().skip(1).take(param.len() - 1).collect();
+                        param = param.chars().skip(1).collect();
 
                         if "01".contains(&code) {
                             listener.lock().unwrap().set_icon_name(&param);
@@ -328,7 +328,7 @@ where
                             }
                         }
 
-                        param = param.chars().skip(1).take(param.len() - 1).collect();
+                        param = param.chars().skip(1).collect();
 
                         if "01".contains(&code) {
                             listener.lock().unwrap().set_icon_name(&param);
